@@ -53,8 +53,29 @@ package reactive
 //@   ensures !inv ==> spawned == 0
 
 // ---- C08: release and the cache
+// (dependants are registered by addOut, which requires them non-nil; the snapshots taken from out inherit that)
+//@ nonnil elem *reactive.node
 //@ func node.invalidate
 //@   locks n.mu
+//@   requires n != nil
+// the flag is set inside the critical section that found it unset; the handler and the walk over the dependants happen on
+// that transition only, the walk visits the snapshot of out in order (a range over a slice skips nothing)
+//@   ghost was bool
+//@   ghost ncb int
+//@   entry ghost ncb = 0
+//@   call Mutex.Lock#1 ghost was = n.invalidated
+//@   call Mutex.Unlock#2 assert !was && n.invalidated
+//@   call dynamic assert !was
+//@   call dynamic ghost ncb = ncb + 1
+//@   call node.invalidate assert !was && arg0 == out[rangeindex+1]
+//@   ensures ncb <= 1
+//@   ensures was ==> ncb == 0
+
+// strobe: the dependants in the snapshot of out are invalidated, the node itself is left alone
+//@ func node.strobe
+//@   locks n.mu
+//@   requires n != nil
+//@   call node.invalidate assert arg0 == out[rangeindex+1]
 
 // release implies invalidate; the cleanup callback runs only on the released false -> true transition (at most once).
 //@ func node.release
@@ -143,3 +164,20 @@ package reactive
 //@   call node.release ghost nrel = nrel + 1
 //@   ensures err != nil ==> nrel == 1 && result == nil
 //@   ensures err == nil ==> nrel == 0 && result != nil
+
+// ---- C04 / C08: a Resource's Invalidate invalidates its own node for good (so that a computation registering on it later
+// is invalidated by addOut as well); Strobe invalidates the current dependants only. Each starts exactly that walk, once.
+//@ func Resource.Invalidate
+//@   requires r != nil
+//@   ghost nwalk int
+//@   entry ghost nwalk = 0
+//@   call node.invalidate assert arg0 == addr(r.node)
+//@   call node.invalidate ghost nwalk = nwalk + 1
+//@   ensures nwalk == 1
+//@ func Resource.Strobe
+//@   requires r != nil
+//@   ghost nwalk int
+//@   entry ghost nwalk = 0
+//@   call node.strobe assert arg0 == addr(r.node)
+//@   call node.strobe ghost nwalk = nwalk + 1
+//@   ensures nwalk == 1
